@@ -127,7 +127,7 @@ def run_partition(arg: tuple) -> tuple:
         "ready_to_read": lambda conns, timeout=None: log["ready"](conns),
         "read_tag": lambda buf: B.SCC_RESPONSE_MESSAGE,
         "SccResponseMessage": RespReader,
-        "find_stale_sccs": lambda sccs, graph, manager: (list(sccs), []),
+        "find_stale_sccs": lambda sccs, graph, manager: log["stale"](sccs),
     }
     K = Kernel(
         "mypy.build",
@@ -224,8 +224,19 @@ def run_partition(arg: tuple) -> tuple:
             return Resp(ids, False)
 
         Mgr.receive_worker_message = receive  # type: ignore[attr-defined]
+        # each SCC is stale or fresh (cached) by the solver's choice; fresh ones are done at once
+        is_stale = [bool(c.bool(f"stale{i}")) for i in range(nscc)]
+
+        def split(ready_sccs: list) -> tuple:
+            st = [s_ for s_ in ready_sccs if is_stale[s_.id]]
+            fr = [s_ for s_ in ready_sccs if not is_stale[s_.id]]
+            for s_ in fr:
+                iface_done.add(s_.id)
+            return st, fr
+
         log["send"] = on_send
         log["ready"] = on_ready
+        log["stale"] = split
         # the coordinator learns interface-done when the loop processes `done`
         orig_done = {"seen": iface_done}
 
@@ -270,8 +281,9 @@ def run_partition(arg: tuple) -> tuple:
         stats["max_steps"] = max(stats["max_steps"], steps["n"])
         if outcome == "ok":
             for i in range(nscc):
-                if sent.get(i, 0) != 1:
-                    viol.append(f"S2: SCC {i} sent {sent.get(i, 0)} times")
+                want = 1 if is_stale[i] else 0
+                if sent.get(i, 0) != want:
+                    viol.append(f"S2: {'stale' if want else 'fresh'} SCC {i} sent {sent.get(i, 0)} times")
             if pending:
                 viol.append("S4: loop ended while workers are still busy")
             for s in sccs:
@@ -299,9 +311,9 @@ def main(args: Any) -> int:
     nscc = 3 if args.tier == "quick" else 4
     npairs = nscc * (nscc - 1) // 2
     parts = [(nscc, nw, mask) for nw in (1, 2, 3) for mask in range(2**npairs)]
-    rep.bounds += [f"{nscc} SCCs, every DAG among them, size hints in {{1, 6}}, 1..3 workers, every non-empty subset of busy workers answering at every wait (interface response before implementation response per worker)"]
+    rep.bounds += [f"{nscc} SCCs, every DAG among them, size hints in {{1, 6}}, every stale/fresh assignment, 1..3 workers, every non-empty subset of busy workers answering at every wait (interface response before implementation response per worker)"]
     rep.assumptions += [
-        "stubs: send/ready_to_read/receive_worker_message/response decoding/find_stale_sccs (everything stale, so every SCC is scheduled)",
+        "stubs: send/ready_to_read/receive_worker_message/response decoding/find_stale_sccs (each SCC stale or fresh by the solver's choice; a fresh SCC is interface-done immediately)",
         "a worker answers each batch with exactly one interface response followed by one implementation response",
     ]
     rep.outside += ["that diagnostics of the parallel build equal the sequential ones (needs real workers)", "cache visibility between processes (store-operation ordering is C04's subject)"]
